@@ -771,7 +771,7 @@ def c12(tier):
                     "bound declaration's name (independent position model), implementation the same for procedures only, typeDefinition the "
                     "named type declaration or the declaration that created the variable's array type; predefined entities, int, anonymous "
                     "arrays and non-identifier tokens yield null, never an error or a dead server.",
-                    ["3 cursor columns per identifier; non-identifier tokens sampled every third token"], "canon,doc,nl")
+                    ["3 cursor columns per identifier; non-identifier tokens sampled every third token"], "canon,doc,nl,cr")
 
 
 def c13(tier):
@@ -800,7 +800,7 @@ def c15(tier):
                     "The semantic-token delta stream (legend from the initialize answer) must decode to strictly increasing, non-overlapping "
                     "tokens each coinciding with one lexical token (UTF-16 length; a comment may include its line feed); keywords, numbers, "
                     "comments by lexical kind; identifiers by the kind of their binding with the declaration modifier exactly on role = decl.",
-                    ["well-formedness on broken documents belongs to the C02 sweep"], "canon,doc,nl,cmtall,cmtuni")
+                    ["well-formedness on broken documents belongs to the C02 sweep"], "canon,doc,nl,cr,cmtall,cmtuni")
 
 
 def c16(tier):
